@@ -289,8 +289,17 @@ def judge(ctx, idx, case):
                 pairs = [(src, f1), (f1, src.flattened())]
             else:
                 text = src.serialize(format=dname)
-                pairs = [(src, pm.ProvDocument.deserialize(content=text, format=dname)),
-                         (pm.ProvDocument.deserialize(content=text, format=dname), pm.ProvDocument.deserialize(content=text, format=dname))]
+                if r.random() < 0.3:
+                    # one serializer object is asked twice (prov.serializers.get(fmt)() is public API, and so is keeping it)
+                    import io
+                    import prov.serializers as _ser
+                    one = _ser.get(dname)()
+                    da, db = one.deserialize(io.StringIO(text)), one.deserialize(io.StringIO(text))
+                    ctx.count("derive.%s.one_serializer_object_asked_twice" % dname)
+                    pairs = [(src, da), (da, db)]
+                else:
+                    pairs = [(src, pm.ProvDocument.deserialize(content=text, format=dname)),
+                             (pm.ProvDocument.deserialize(content=text, format=dname), pm.ProvDocument.deserialize(content=text, format=dname))]
         except pm.ProvException:
             ctx.count("derive.%s.refused" % dname)
             continue
@@ -310,6 +319,14 @@ def judge(ctx, idx, case):
             problems.append({"derive": dname, "problem": "the deriving operation itself changed the source (%s)" % which,
                              "before": strict.jsonable([x for x in src_before[2] if x not in after[2]][:2]) if which == "printed names" else None,
                              "after": strict.jsonable([x for x in after[2] if x not in src_before[2]][:2]) if which == "printed names" else None})
+        # every document of these derivations is independent of every other one (the source, a first result, a second result): while
+        # one of them is mutated, all the others are watched, not only its partner of the pair
+        family = []
+        if dname in ("unified", "flattened", "json", "xml", "rdf"):
+            for pair in pairs:
+                for o in pair:
+                    if not any(o is x for x in family):
+                        family.append(o)
         for a, b in pairs:
             if a is b:
                 problems.append({"derive": dname, "problem": "the operation returned its source object"})
@@ -330,6 +347,8 @@ def judge(ctx, idx, case):
                     if dname in ("copy", "add_record_same_document", "update_self") and how not in ("add_attribute", "add_value", "add_formal"):
                         continue
                     before = view(watched)
+                    bystanders = [o for o in family if o is not target and o is not watched]
+                    before_by = [view(o) for o in bystanders]
                     try:
                         if not mutate(target, how, r):
                             continue
@@ -339,6 +358,14 @@ def judge(ctx, idx, case):
                     after = view(watched)
                     judged += 1
                     ctx.count("judged.%s.%s.%s" % (dname, how, side))
+                    if bystanders:
+                        ctx.count("bystanders_watched", len(bystanders))
+                        changed = [i for i, o in enumerate(bystanders) if view(o) != before_by[i]]
+                        if changed:
+                            problems.append({"derive": dname, "mutation": how, "mutated": side,
+                                             "problem": "mutating the %s through %s changed another document derived from the same source "
+                                                        "(%d documents of this derivation were watched)" % (side, how, len(bystanders))})
+                            break
                     if before != after:
                         problems.append({"derive": dname, "mutation": how, "mutated": side,
                                          "problem": "mutating the %s through %s changed the %s" % (side, how, "source" if side == "result" else "result"),
@@ -391,6 +418,6 @@ LEVEL_TEXT = ("Exploration by runtime observation: for generated documents and e
               "(add attribute / record / namespace / default namespace / bundle) is applied to the result or to the source and the other side's "
               "strict content and namespace view are compared before/after; a structural walk intersecting the identities of the mutable "
               "containers of both object graphs directs the mutation through any shared object."
-              " Derivations include add_record into the record's own document, update(self), second-order unified() and deepcopy; mutators include supplying a missing formal attribute and writing through every container when the structural walk sees sharing; one case in 37 does unrelated work (a document with 4500 names and values) between derivation and mutation.")
+              " Derivations include add_record into the record's own document, update(self), second-order unified() and deepcopy; mutators include supplying a missing formal attribute and writing through every container when the structural walk sees sharing; one case in 37 does unrelated work (a document with 4500 names and values) between derivation and mutation; all other documents of a unified / flattened / deserialisation derivation are watched while one is mutated; 30% of the deserialisations ask one serializer object twice.")
 LEVEL_NOTE = "Trusted: snapshots; immutable-by-convention value objects are deliberately not treated as shared state. Bounded documents."
 DESIGN_REF = "DESIGN.md section 5 (ALIAS) and section 6, C12"
